@@ -146,6 +146,9 @@ inductive Op
   | tx (id n : Nat)                -- `ix.tx(n bytes); ix.serviceTxes()`, the socket takes them all
   | txBlocked (id n : Nat)         -- the same, the socket would block: nothing moves
   | checkPersisted (id : Nat) (ver : HttpVer) (hasClose hasKeepAlive chunked hasLength : Bool)
+  /-- a whole request head arrives (n bytes) and is parsed in the same pass:
+  `ix.serviceReceives(); requestant.parse()` → `parseHead` → `checkPersisted` -/
+  | request (id n : Nat) (ver : HttpVer) (hasClose hasKeepAlive chunked hasLength : Bool)
   deriving Repr
 
 def step (s : State) : Op → State
@@ -161,6 +164,9 @@ def step (s : State) : Op → State
     onConn s id (fun c => if c.cutoff || n == 0 then c else c.moved (refreshes s) s.now)
   | .txBlocked _ _ => s
   | .checkPersisted id ver cl ka ch ln => onConn s id (fun c => checkPersisted c ver cl ka ch ln)
+  | .request id n ver cl ka ch ln =>
+    onConn s id (fun c => if c.cutoff || n == 0 then c
+                          else checkPersisted (c.moved (refreshes s) s.now) ver cl ka ch ln)
 
 def run (s : State) : List Op → State
   | [] => s
